@@ -106,6 +106,23 @@ def run(ctx: Ctx):
                             return
                         case = {"W": W, "rounds": [{"mode": mode, "path": "/snap/A", "spec": spec, "faults": [pos], "chooser": ch}]}
                         _account(ctx, case, cl.run_case(ctx, case, f"faults_{mode}"), f"faults_{mode}")
+    # histories: an earlier (successful) async snapshot of the same job at the same path, then an attempt with a failing
+    # write - whatever the earlier attempt left in the job-wide store must not let this one commit or report success
+    for i in range(ctx.n(12, 120)):
+        if ctx.time_left() < 40:
+            ctx.notes.append(f"history stream stopped early at {i}")
+            break
+        W = ctx.rng.choice([2, 2, 3])
+        spec1 = cl.rand_workload(ctx.rng, W)
+        spec2 = spec1 if ctx.rng.random() < 0.5 else cl.rand_workload(ctx.rng, W)
+        r = ctx.rng.randrange(1, W) if ctx.rng.random() < 0.7 else 0
+        fault = [[r, ctx.rng.randrange(len(spec2["tensors"][r])) if spec2["nobatch"] else 0]]
+        chs = choosers(ctx.rng, W, 3)
+        case = {"W": W, "rounds": [
+            {"mode": "async", "path": "/snap/A", "spec": spec1, "faults": [], "chooser": chs[0]},
+            {"mode": "async", "path": "/snap/A", "spec": spec2, "faults": fault,
+             "chooser": ctx.rng.choice([chs[1], {"kind": "prio", "order": list(range(W))}])}]}
+        _account(ctx, case, cl.run_case(ctx, case, "history_async"), "history_async")
     # random stream
     for i in range(ctx.n(120, 1000)):
         if ctx.time_left() < 20:
